@@ -112,6 +112,39 @@ structure ReaderExt (M : Type) where
   buildMeta : Int → List Int → Int → Except Err M
   mkSysex : List Int → Int → Except Err M
   fromBytes : List Int → Int → Except Err M
+  /-- `msg.type == 'sysex'` on a message object (syx.py) -/
+  isSysex : M → Bool := fun _ => false
+
+/-! ### text as code points (syx.py): `bytes.decode('latin1')` is the identity on code points -/
+
+/-- the code points below 256 that `\s` matches in a `str` pattern -/
+def isReWs (c : Int) : Bool :=
+  c = 9 || c = 10 || c = 11 || c = 12 || c = 13 || c = 32 || c = 28 || c = 29 || c = 30 || c = 31 || c = 0x85 || c = 0xa0
+
+/-- `re.sub(r'\s', ' ', text)` -/
+def subWs (text : List Int) : List Int := text.map (fun c => if isReWs c then 32 else c)
+
+/-- the ASCII whitespace `bytearray.fromhex` skips between pairs -/
+def isAsciiWs (c : Int) : Bool := c = 32 || c = 9 || c = 10 || c = 11 || c = 12 || c = 13
+
+def hexDigitVal (c : Int) : Option Int :=
+  if 48 ≤ c ∧ c ≤ 57 then some (c - 48)
+  else if 65 ≤ c ∧ c ≤ 70 then some (c - 55)
+  else if 97 ≤ c ∧ c ≤ 102 then some (c - 87)
+  else none
+
+/-- `bytearray.fromhex(text)`: pairs of hex digits, ASCII whitespace allowed between (not inside) pairs; anything else is
+    ValueError -/
+def fromhex : List Int → Except Err (List Int)
+  | [] => .ok []
+  | a :: tl =>
+    if isAsciiWs a then fromhex tl
+    else match tl with
+      | [] => .error .ValueError
+      | b :: rest =>
+        match hexDigitVal a, hexDigitVal b with
+        | some x, some y => (fromhex rest).map ((16 * x + y) :: ·)
+        | _, _ => .error .ValueError
 
 /-- `try: x = e  except E: raise X`: the exception of `e` is mapped -/
 def mapErr {α} (f : Err → Err) : Except Err α → Except Err α
